@@ -7,9 +7,14 @@ import (
 	"github.com/jsightapi/jsight-api-core/jerr"
 )
 
+// maxExpandedDirectives limits what the expansion of macros may produce: a
+// chain of n macros each of which pastes the next one twice yields 2^n copies.
+const maxExpandedDirectives = 1 << 20
+
 func (core *JApiCore) processPaste() *jerr.JApiError {
 	core.directivesWithPastes = make([]*directive.Directive, 0, 200)
 	core.currentContextDirective = nil
+	core.expandedDirectives = 0
 	return core.processPasteDirectiveList(core.directives)
 }
 
@@ -28,6 +33,11 @@ func (core *JApiCore) processDirective(d *directive.Directive) *jerr.JApiError {
 			return d.KeywordError(je.Error())
 		}
 		return nil
+	}
+
+	core.expandedDirectives++
+	if core.expandedDirectives > maxExpandedDirectives {
+		return d.KeywordError(jerr.TooManyDirectives)
 	}
 
 	dd := d.CopyWoParentAndChildren()
